@@ -194,7 +194,7 @@ class Exec:
     def check_raise(self, s: St, exc: str):
         self.cur = s
         allowed = None
-        for e, cond in self.c.raises.items():
+        for e, cond in list(self.c.raises.items()) + list(self.c.may_raise.items()):
             if exc_is(exc, e):
                 allowed = cond
         if allowed is None:
@@ -257,7 +257,7 @@ class Exec:
         outs = []
         for c, s2 in self.cond(s.test, st):
             s3 = self.implicit_exc(s2, "AssertionError", z3.Not(c), "assert")
-            outs.append(("normal", s3, None))
+            outs.append(("normal", self.narrow(s3, self.narrowings(s.test, True)), None))
         return outs + self.drain()
 
     def st_Return(self, s, st):
@@ -288,9 +288,10 @@ class Exec:
         for c, s2 in self.cond(s.test, st):
             cs = z3.simplify(c)
             if not z3.is_false(cs):
-                outs.extend(self.block(s.body, s2.assume(c)))
+                outs.extend(self.block(s.body, self.narrow(s2.assume(c), self.narrowings(s.test, True))))
             if not z3.is_true(cs):
-                outs.extend(self.block(s.orelse, s2.assume(z3.Not(c))) if s.orelse else [("normal", s2.assume(z3.Not(c)), None)])
+                s_else = self.narrow(s2.assume(z3.Not(c)), self.narrowings(s.test, False))
+                outs.extend(self.block(s.orelse, s_else) if s.orelse else [("normal", s_else, None)])
         return outs + self.drain()
 
     def st_Assign(self, s, st):
@@ -445,14 +446,22 @@ class Exec:
             pass
         for m in self.c.modifies:
             if "." in m:
-                root, f = m.split(".", 1)
-                if f == attr and root in self.entry_env.vars and isinstance(self.entry_env.vars[root], VObj):
-                    if self.entry_env.vars[root].t.eq(base.t):
-                        return True
+                path, f = m.rsplit(".", 1)
+                if f != attr:
+                    continue
+                try:
+                    owner = Pure(self.ctx, self.entry_env).ev(_parse_spec(path))
+                except Unsupported:
+                    continue
+                if isinstance(owner, VObj) and (owner.t.eq(base.t) or z3.is_true(z3.simplify(owner.t == base.t))):
+                    return True
         for t in st.vars.get("__fresh__", VTuple([])).items:
             if t.t.eq(base.t):
                 return True
         return False
+
+    def same_obj(self, a, b):
+        return a.eq(b)
 
     def implied(self, st: St, fact) -> bool:
         """Cheap syntactic-ish implication test used only to simplify generated terms
@@ -470,6 +479,46 @@ class Exec:
         r = s.check() == z3.unsat
         self._implied_cache[key] = r
         return r
+
+    # ------------------------------------------------------------------ isinstance narrowing
+    def narrowings(self, test, truth: bool):
+        """(name, class) pairs that hold when `test` evaluates to `truth`"""
+        if isinstance(test, ast.Call) and isinstance(test.func, ast.Name) and test.func.id == "isinstance" and truth:
+            tn = test.args[1]
+            tname = tn.attr if isinstance(tn, ast.Attribute) else getattr(tn, "id", None)
+            if isinstance(test.args[0], ast.Name) and tname in api.CLASSES:
+                return [(test.args[0].id, tname)]
+            return []
+        if isinstance(test, ast.UnaryOp) and isinstance(test.op, ast.Not):
+            return self.narrowings(test.operand, not truth)
+        if isinstance(test, ast.BoolOp):
+            if (isinstance(test.op, ast.And) and truth) or (isinstance(test.op, ast.Or) and not truth):
+                out = []
+                for v in test.values:
+                    out.extend(self.narrowings(v, truth))
+                return out
+        return []
+
+    def _restore_kinds(self, s_after: St, s_before: St) -> St:
+        s2 = s_after.fork()
+        for k, v in s_before.vars.items():
+            if isinstance(v, (VObj, VOpt)) and k in s2.vars and s2.vars[k] is not v:
+                cur = s2.vars[k]
+                if isinstance(cur, VObj) and isinstance(v, VObj) and cur.t.eq(v.t):
+                    s2.vars[k] = v
+        return s2
+
+    def narrow(self, st: St, pairs) -> St:
+        if not pairs:
+            return st
+        s2 = st.fork()
+        for name, tname in pairs:
+            v = s2.vars.get(name)
+            if isinstance(v, VOpt) and isinstance(v.inner, VObj):
+                v = v.inner  # isinstance is false for None
+            if isinstance(v, VObj) and v.kind != tname and self.ctx._is_subclass(tname, v.kind):
+                s2.vars[name] = VObj(tname, v.t)
+        return s2
 
     # ------------------------------------------------------------------ try / except
     def st_Try(self, s, st):
@@ -511,7 +560,7 @@ class Exec:
         for frame in st.handlers:
             if any(exc_is(exc, h) for h in frame):
                 return True
-        return any(exc_is(exc, e) for e in self.c.raises)
+        return any(exc_is(exc, e) for e in list(self.c.raises) + list(self.c.may_raise))
 
     def implicit_exc(self, st: St, exc: str, cond, what: str) -> St:
         """An operation raises `exc` exactly when `cond`.  Either fork (handler / contract
@@ -957,7 +1006,15 @@ class Exec:
                     new.append((keep, s))
                     continue
                 npend = len(self.pending)
-                sub = self.ev(nxt_e, s.assume(go))
+                pairs = []
+                for prev_ast in e.values[: e.values.index(nxt_e)]:
+                    pairs.extend(self.narrowings(prev_ast, is_and))  # all earlier operands were true (and) / false (or)
+                s_go = self.narrow(s.assume(go), pairs)
+                narrowed = s_go.vars != s.vars
+                sub = self.ev(nxt_e, s_go)
+                if narrowed:
+                    # narrowing is local to the operand: restore the variable kinds
+                    sub = [(v_, self._restore_kinds(s_, s)) for v_, s_ in sub]
                 if z3.is_true(gs):
                     new.extend(sub)
                     continue
@@ -1454,14 +1511,22 @@ class Exec:
         for exc, cnd in cc.raises.items():
             c = Pure(self.ctx, pre_env).b(_parse_spec(cnd))
             s = self.implicit_exc(s, exc, c, f"call:{cc.qualname}")
+        for exc, cnd in cc.may_raise.items():
+            c = Pure(self.ctx, pre_env).b(_parse_spec(cnd))
+            if self.catches(s, exc):
+                self.pending.append((s.assume(c), exc))
+            else:
+                self.oblige(f"no-{exc}:call:{cc.qualname}", z3.Not(c), st=s, note="callee may raise here")
         # frame
         s2 = s.fork()
         for m in cc.modifies:
             if m == "trace":
                 s2.trace = z3.Const(f"trace!{next_id()}", IntSeq)
                 continue
-            root, fld = m.split(".", 1)
-            obj = params[root]
+            path, fld = m.rsplit(".", 1)
+            obj = Pure(self.ctx, pre_env).ev(_parse_spec(path))
+            if isinstance(obj, VOpt):
+                obj = obj.inner
             key, k, mutable = self.ctx.heap_key(obj.kind, fld)
             if not mutable:
                 raise Unsupported(f"modifies names immutable field {key}")
@@ -1486,7 +1551,10 @@ class Exec:
                 rv.fresh = bool(case.get("fresh_result"))
             post_env = Env({**params, "trace": VSeq("list[int]", s3.trace)}, s3.heap, old=pre_env)
             assumed = []
-            for clause in case.get("ensures", []):
+            clauses = case.get("ensures", [])
+            if cc.virtual and not (params.get("self") is not None and getattr(params.get("self"), "kind", None) != cc.qualname.split(".")[0]):
+                clauses = cc.virtual_ensures
+            for clause in clauses:
                 f = Pure(self.ctx, post_env, rv).b(_parse_spec(clause))
                 assumed.append(f)
                 assumed.extend(seq_facts(f, bool(self.ctx.expand_quant)))
